@@ -26,7 +26,7 @@ RULE = ("lifecycle: a fixed family of registration trees (flat, one/two/nested s
         "random trees (<= 3 levels, <= 4 contexts per application) with random failure sets of size <= 4, each through "
         "AppRunner and through web.run_app; shutdown: every placement of the shutdown moment relative to the request "
         "phases (idle keep-alive, new, handler running/finishing within t/within 2t/never, body upload pending, pipelined) "
-        "on 1-4 in-memory connections under virtual time, with on_shutdown receivers taking 0 or s seconds.  "
+        "(pipelined = 1-3 further requests parsed and queued behind the one in flight, which ends before/at/after the on_shutdown signal or in the iteration cleanup() starts in) on 1-4 in-memory connections under virtual time, with on_shutdown receivers taking 0 or s seconds.  "
         "Non-trivial = at least one context completed start-up (lifecycle) / at least one connection was not idle "
         "(shutdown); distinct by the canonical event log.")
 TRUSTED = [
@@ -552,7 +552,8 @@ def suite_lifecycle(ctx, exe):
 # suite `shutdown`: graceful shutdown under virtual time
 #
 # case: {"suite": "shutdown", "t": ms, "s": ms, "off": ms, "conns": [{"phase": idle|new|partial|h|pipe|u,
-#        "d": ms|None, "late": ms|None}]}
+#        "d": ms|None, "late": ms|None, "k": queued pipelined requests (pipe)}]}
+#   d = 0 (h, pipe): the handler waits for a gate that is released in the step that calls cleanup()
 #   t = shutdown_timeout, s = how long the on_shutdown receiver sleeps, off = offset of loop.time() at T0,
 #   d = handler returns d ms after T0 (h, pipe) / rest of the body is sent d ms after T0 (u); None = never
 #   late = the peer sends a fresh request late ms after T0 (if the transport is still open)
@@ -627,7 +628,9 @@ def impl_shutdown(case):
     loop.vtime = (BASE_MS + case["off"]) / 1000.0
     t0 = [None]
     over = [False]          # the observation window is over (harness teardown cancels what is left)
-    obs = [{"closed": None, "handler": "none", "late": False, "late_sent": False, "body_sent": False}
+    shutting = [False]      # set when Server.pre_shutdown() is called (or, failing that, when on_shutdown starts)
+    gate = asyncio.Event()  # handlers with d == 0 wait for it; released in the step that calls cleanup()
+    obs = [{"closed": None, "handler": "none", "late": False, "late_sent": False, "body_sent": False, "queued_started": []}
            for _ in case["conns"]]
 
     def now():
@@ -638,14 +641,17 @@ def impl_shutdown(case):
         if request.path == "/late":
             obs[cid]["late"] = True
             return web.Response(text="late")
-        if request.path in ("/warm", "/second"):
-            if request.path == "/second":
-                obs[cid]["second"] = True
+        if request.path == "/warm" or request.path.startswith("/queued"):
+            if request.path.startswith("/queued"):
+                # a pipelined request that was parsed and queued behind the one in flight
+                obs[cid]["queued_started"].append([request.path, bool(shutting[0]), now()])
             return web.Response(text="ok")
         dur = request.headers.get("X-Dur")
         try:
             if request.headers.get("X-Body"):
                 await request.read()
+            elif dur == "gate":
+                await gate.wait()
             elif dur == "inf":
                 await asyncio.Event().wait()
             else:
@@ -662,6 +668,7 @@ def impl_shutdown(case):
     glob_obs = {"on_shutdown_begin": None, "open_at_on_shutdown": [], "returned": None, "open_at_return": []}
 
     async def on_sd(app):
+        shutting[0] = True
         glob_obs["on_shutdown_begin"] = now()
         glob_obs["open_at_on_shutdown"] = [i for i, (p, tr) in enumerate(conns) if not tr.closed]
         if case["s"]:
@@ -679,6 +686,13 @@ def impl_shutdown(case):
     try:
         runner = web.AppRunner(app, access_log=None, shutdown_timeout=case["t"] / 1000.0, logger=_quiet_logger(glob_obs))
         loop.run_until_complete(runner.setup())
+        _orig_pre = runner.server.pre_shutdown
+
+        def _pre():
+            shutting[0] = True
+            return _orig_pre()
+
+        runner.server.pre_shutdown = _pre      # harness-side marker of the shutdown instant
         for cid, c in enumerate(case["conns"]):
             proto = runner.server()
 
@@ -692,7 +706,7 @@ def impl_shutdown(case):
             proto.connection_made(tr)
             conns.append((proto, tr))
             ph, d = c["phase"], c.get("d")
-            dur = "inf" if d is None else str(d)
+            dur = "inf" if d is None else ("gate" if d == 0 else str(d))
             if ph == "idle":
                 proto.data_received(req(cid, "/warm"))
             elif ph == "partial":
@@ -700,7 +714,8 @@ def impl_shutdown(case):
             elif ph == "h":
                 proto.data_received(req(cid, "/", dur))
             elif ph == "pipe":
-                proto.data_received(req(cid, "/", dur) + req(cid, "/second"))
+                # one read delivers the request in flight and k more, which are parsed and queued
+                proto.data_received(req(cid, "/", dur) + b"".join(req(cid, f"/queued{j}") for j in range(c.get("k", 1))))
             elif ph == "u":
                 proto.data_received(req(cid, "/", "0", body_len=10) + b"12345")
             loop.run_until_idle()
@@ -719,7 +734,11 @@ def impl_shutdown(case):
                         obs[cid]["late_sent"] = True
                         proto.data_received(req(cid, "/late"))
                 loop.call_at(t0[0] + c["late"] / 1000.0, send_late)
-        task = loop.create_task(runner.cleanup())
+        async def _shutdown():
+            gate.set()          # "same tick": handlers waiting for the gate are woken in the iteration cleanup() starts in
+            await runner.cleanup()
+
+        task = loop.create_task(_shutdown())
         horizon = t0[0] + (case["s"] + 3 * max(case["t"], 0)) / 1000.0 + 200.0
         for _ in range(2000):
             loop.run_until_idle()
@@ -778,6 +797,11 @@ def shutdown_oracle(case, obs, glob_obs):
         if o["late"]:
             bad.append((f"connection {i} ({ph}): a request sent {c['late']} ms after shutdown began was dispatched to a handler",
                         {"kind": "late_accepted", "conn": i}))
+        after = [q for q in o["queued_started"] if q[1]]
+        if after:
+            bad.append((f"connection {i} ({ph}): pipelined request(s) {[q[0] for q in after]} that were still queued when shutdown "
+                        f"began were handed to a handler afterwards (at {[q[2] for q in after]} ms)",
+                        {"kind": "queued_started_after_shutdown", "conn": i, "paths": [q[0] for q in after]}))
         if ph in ("idle", "new", "partial"):
             if glob_obs["on_shutdown_begin"] is not None and i in glob_obs["open_at_on_shutdown"]:
                 bad.append((f"connection {i} ({ph}) was idle when shutdown began but its transport was still open when the "
@@ -850,7 +874,11 @@ def gen_shutdown_cases(ctx):
         pl = placements(t, s)
         singles = [{"phase": "idle"}, {"phase": "new"}, {"phase": "partial"}, {"phase": "h", "d": None}, {"phase": "u", "d": None}]
         singles += [{"phase": "h", "d": d} for d in pl]
-        singles += [{"phase": "pipe", "d": d} for d in pl[::3]]
+        singles += [{"phase": "pipe", "d": d, "k": 1 + (j % 3)} for j, d in enumerate(pl[::3])]
+        # the request in flight ends between pre_shutdown() and RequestHandler.shutdown() (during the on_shutdown
+        # signal), or is woken in the very iteration cleanup() starts in (d = 0), with 1..3 requests queued behind it
+        singles += [{"phase": "pipe", "d": d, "k": k} for k in (1, 3) for d in sorted({0, 125, s - 125, s + 125}) if d >= 0]
+        singles += [{"phase": "h", "d": 0}]
         singles += [{"phase": "u", "d": d} for d in (125, s + 125, s + t - 125, s + t + 125) if d > 0]
         for c in singles:
             lates = [None, 125] + ([s - 125] if s > 250 else []) + [s + 125]
@@ -866,8 +894,10 @@ def gen_shutdown_cases(ctx):
         for _ in range(rng.randint(2, 4)):
             ph = rng.choice(["idle", "new", "partial", "h", "h", "h", "pipe", "u"])
             c = {"phase": ph}
+            if ph == "pipe":
+                c["k"] = rng.randint(1, 3)
             if ph in ("h", "pipe"):
-                c["d"] = rng.choice(pl + [None]) if t > 0 else rng.choice(pl)
+                c["d"] = rng.choice(pl + [None, 0]) if t > 0 else rng.choice(pl + [0])
                 if t <= 0 and rng.random() < 0.3:
                     c["d"] = None
             elif ph == "u":
